@@ -1,8 +1,8 @@
 package absint
 
 import (
-	"go/constant"
 	"fmt"
+	"go/constant"
 	"go/token"
 	"go/types"
 	"strings"
